@@ -176,6 +176,7 @@ def frame_only(program, cname, params, assigns=(), requires=()):
     c.lang = finfo.lang
     ex = Exec(program, 'vc')
     ex.auto_loops = True
+    ex.frame_only = True
     ex.check_overflow = False
 
     def make_entry(ex):
